@@ -608,10 +608,14 @@ func vbExhaustive(r *rand.Rand, emit func(vbLayout)) {
 }
 
 func vbNewController(sm *vbSM, ignore bool, disableL2 bool) *controller {
+	return vbNewControllerFor(vbNodeNames[0], sm, ignore, disableL2)
+}
+
+func vbNewControllerFor(me string, sm *vbSM, ignore bool, disableL2 bool) *controller {
 	old := newBGP
 	newBGP = func(controllerConfig) bgp.SessionManager { return sm }
 	defer func() { newBGP = old }()
-	c, err := newController(controllerConfig{MyNode: vbNodeNames[0], DisableLayer2: disableL2, bgpType: bgpNative,
+	c, err := newController(controllerConfig{MyNode: me, DisableLayer2: disableL2, bgpType: bgpNative,
 		Logger: log.NewNopLogger(), IgnoreExcludeLB: ignore, BGPAdsChangedCallback: func(string) {}})
 	if err != nil {
 		panic(err)
